@@ -1,6 +1,9 @@
 package props
 
 import (
+	"bytes"
+	"encoding/gob"
+	"encoding/json"
 	"fmt"
 	"sync"
 
@@ -14,7 +17,111 @@ import (
 // The workload is the complete domain in both tiers.
 func init() { core.Register("C19", c19) }
 
+// c19Holder is an application struct that carries message types the way exported Go values are usually persisted.
+type c19Holder struct {
+	One  stun.MessageType
+	List []stun.MessageType
+	By   map[string]stun.MessageType
+}
+
 func c19(c *core.Ctx) {
+	// What the process does FIRST with the codec must not matter: each variant runs in a process of its own, before
+	// anything else has used the package, and then sweeps the complete domain in both directions.
+	c.SectionFirst("first-use-order", 4, func(i int64, _ *gen.Rand) {
+		switch i {
+		case 0: // the first use is a read of a wire value
+			var t stun.MessageType
+			t.ReadValue(0x0111)
+		case 1: // the first use is a decode of a datagram
+			m := new(stun.Message)
+			b := make([]byte, 20)
+			b[0], b[1] = 0x01, 0x01
+			b[4], b[5], b[6], b[7] = 0x21, 0x12, 0xa4, 0x42
+			_ = stun.Decode(b, m)
+		case 2: // the first use is the formatting of a type
+			_ = stun.MessageType{Method: 0xabc, Class: 3}.String()
+		case 3: // the first use is an encode
+			_ = stun.MessageType{Method: 0xabc, Class: 3}.Value()
+		}
+		for v := 0; v < 65536; v++ {
+			var t stun.MessageType
+			t.ReadValue(uint16(v))
+			m, cl := ref.SplitType(uint16(v))
+			c.Eval(1)
+			if uint16(t.Method) != m || uint8(t.Class) != cl {
+				c.Violate("readvalue-mismatch", "ReadValue:first-use", map[string]interface{}{"first_use": i, "v": v, "got_method": t.Method, "got_class": t.Class, "want_method": m, "want_class": cl})
+
+				return
+			}
+		}
+		for mth := 0; mth < 4096; mth++ {
+			for cl := 0; cl < 4; cl++ {
+				t := stun.MessageType{Method: stun.Method(mth), Class: stun.MessageClass(cl)}
+				c.Eval(1)
+				if got, want := t.Value(), ref.JoinType(uint16(mth), uint8(cl)); got != want {
+					c.Violate("value-mismatch", "Value:first-use", map[string]interface{}{"first_use": i, "method": mth, "class": cl, "got": got, "want": want})
+
+					return
+				}
+			}
+		}
+		c.Count("first_use_variants_swept", 1)
+	})
+	// Types travel inside exported application values through encoding/gob and encoding/json: what comes back is what
+	// went in, over the whole domain (the encoders pick up any marshalling methods the type has).
+	c.SectionSerial("persisted-forms", 4, func(i int64, _ *gen.Rand) {
+		h := c19Holder{By: map[string]stun.MessageType{}}
+		for mth := int(i); mth < 4096; mth += 4 {
+			for cl := 0; cl < 4; cl++ {
+				t := stun.MessageType{Method: stun.Method(mth), Class: stun.MessageClass(cl)}
+				h.List = append(h.List, t)
+				if mth%64 == int(i) {
+					h.By[fmt.Sprintf("%03x/%d", mth, cl)] = t
+				}
+			}
+		}
+		h.One = h.List[len(h.List)-1]
+		check := func(form string, back c19Holder) {
+			c.Eval(int64(len(h.List)))
+			if back.One != h.One || len(back.List) != len(h.List) || len(back.By) != len(h.By) {
+				c.Violate("persisted-form", "persisted:"+form, map[string]interface{}{"form": form, "one_before": h.One.String(), "one_after": back.One.String(), "list_len": len(back.List), "map_len": len(back.By)})
+
+				return
+			}
+			for k := range h.List {
+				if back.List[k] != h.List[k] {
+					c.Violate("persisted-form", "persisted:"+form, map[string]interface{}{"form": form, "before": fmt.Sprintf("%#x/%d", uint16(h.List[k].Method), h.List[k].Class), "after": fmt.Sprintf("%#x/%d", uint16(back.List[k].Method), back.List[k].Class)})
+
+					return
+				}
+			}
+			for k, v := range h.By {
+				if back.By[k] != v {
+					c.Violate("persisted-form", "persisted:"+form, map[string]interface{}{"form": form, "key": k})
+
+					return
+				}
+			}
+		}
+		var buf bytes.Buffer
+		var g c19Holder
+		if err := gob.NewEncoder(&buf).Encode(h); err != nil {
+			c.Violate("persisted-form", "persisted:gob-encode", map[string]interface{}{"err": err.Error()})
+		} else if err := gob.NewDecoder(&buf).Decode(&g); err != nil {
+			c.Violate("persisted-form", "persisted:gob-decode", map[string]interface{}{"err": err.Error()})
+		} else {
+			check("gob", g)
+		}
+		var j c19Holder
+		if raw, err := json.Marshal(h); err != nil {
+			c.Violate("persisted-form", "persisted:json-encode", map[string]interface{}{"err": err.Error()})
+		} else if err := json.Unmarshal(raw, &j); err != nil {
+			c.Violate("persisted-form", "persisted:json-decode", map[string]interface{}{"err": err.Error()})
+		} else {
+			check("json", j)
+		}
+		c.Count("persisted_round_trips", 2)
+	})
 	// Value(): all 4096 methods x 4 classes, one case per method.
 	c.Section("value", 4096, func(i int64, _ *gen.Rand) {
 		method := uint16(i)
